@@ -18,7 +18,7 @@ func init() {
 		Explanation: "LIKE: the pattern translator's loop is explored as a product with its reference automaton (state: previous rune was the escape character) over rune classes — every Go-regexp metacharacter, `_`, `%`, the escape character and an ordinary rune: a metacharacter is emitted escaped, `_`→`.`, `%`→`.*`, an escaped `_`/`%`/`\\` literally (the backslash doubled), anything else after the escape is an error, ordinary runes are copied; the pattern is anchored (^…$) and, because `.` is emitted, compiled with the s flag so that `_`/`%` match newlines; a trailing escape is an error. " +
 			"RE: `~` compiles exactly its second argument and matches its first; `~*` does the same with the (?i) flag and never case-maps the pattern (which would turn \\S into \\s) or the subject; the cache key of all three operators is the string that determines the compiled expression. " +
 			"REV: reverse() never indexes a rune slice with a byte offset. TAB2: upper/lower/replace/len delegate to strings.ToUpper/ToLower/Replace(-1)/len; position returns strings.Index, NULL for −1. SUB: substr slices values[0].Str from values[1].Int (bounds are C07's PAN2).",
-		NotDecided: []string{"that Go's regexp engine implements the emitted expression as expected", "Unicode case mapping of upper/lower", "whether substr/len should count bytes or characters (the descriptions do not say; bytes today)"},
+		NotDecided: []string{"that Go's regexp engine implements the emitted expression as expected", "Unicode case mapping of upper/lower", "whether len and position should count bytes or characters (the descriptions do not say; bytes today)"},
 	})
 }
 
@@ -563,6 +563,7 @@ func checkSubstrShape(c *core.Ctx, t *fnTable, ids map[string]int64) {
 		}
 		bad := ""
 		full := 0
+		byteCut := false
 		for _, r := range res {
 			if r.cls == "err" {
 				continue
@@ -587,7 +588,11 @@ func checkSubstrShape(c *core.Ctx, t *fnTable, ids map[string]int64) {
 			for _, f := range okForms {
 				if r.payload == f {
 					match = true
+					byteCut = true
 				}
+			}
+			if strings.Contains(r.payload, "[]rune("+s0+")") {
+				match = true // a character-based slice of the first argument
 			}
 			if !match {
 				bad = "the result must be " + strings.Join(okForms, " or ") + "; a path returns " + r.payload
@@ -597,5 +602,8 @@ func checkSubstrShape(c *core.Ctx, t *fnTable, ids map[string]int64) {
 			bad = "no path returns a slice of the first argument"
 		}
 		c.Decide(bad == "", "SUB", key, d.Function.Pos(), len(res), "values[0].Str[values[1].Int:…]", bad)
+		// the property names multibyte UTF-8: a cut at a byte offset can fall inside a character
+		c.Decide(!byteCut, "SUB", key+"/character boundaries", d.Function.Pos(), 1, "the first argument is cut between characters",
+			"substr slices the string's bytes at values[1].Int (and values[2].Int): for a string with a multibyte character before the cut the result holds half a character — not a substring, not valid UTF-8 (substr('żółw', 1) is \"\\xbcółw\", and -o json then prints invalid JSON)")
 	}
 }
